@@ -14,7 +14,7 @@
   Proved for all objects, names, texts: `prefix_match`/`full_match` (+ corollaries), `colour_roundtrip`,
   `frame`, `refuse_pure`, `reset_default`, `null_resets`, `copy_owns`, `copy_self`, and `set_get_partial`
   (set then get for the handlers that store one member shown as it is: numbers, characters, strings,
-  colours, line attributes, axis/line positions: 37 of the 45 handlers).  Stated only: `set_get_statement`
+  colours, line attributes, axis/line positions: 38 of the 46 handlers).  Stated only: `set_get_statement`
   for the remaining handlers (points and their coordinates, axis intervals, graph align/clip).
 -/
 import MptModel.Lemmas.Layout
@@ -39,8 +39,21 @@ def entryOk (k : Kind) (e : SetEntry) : Bool :=
   e.act.nullOK k &&                          -- its "no source" branch stores the documented default
   e.act.touched.all (· < k.fields.length)    -- it names members of the struct
 
+/-- a text-alias table the getter PRINTS from must be the inverse of what the setter PARSES: entry `v` is the
+    axis letters of mask `v` (`Record.clipText`, defined from the letters, not from the table), the parser's
+    letter loop maps it back to `v`, and the clip handler's row shows its own member through that table -/
+def clipOk (k : Kind) : Bool :=
+  match k.clipAlias with
+  | none => k.sets.all fun e => match e.act with | .clip _ => false | _ => true
+  | some (_, names) =>
+    names == (List.range 8).map clipText &&
+    (List.range names.length).all (fun v => clipLetters (names.getD v []) 0 == v) &&
+    k.sets.all fun e => match e.act with
+      | .clip f => (affected k e.act).all (k.clipRow · f)
+      | _ => true
+
 def kindOk (k : Kind) : Bool :=
-  k.sets.all (entryOk k) && k.copyOwnType && k.selfGuard && k.strsDuplicated
+  k.sets.all (entryOk k) && k.copyOwnType && k.selfGuard && k.strsDuplicated && clipOk k
 
 def tablesOk : Bool := kinds.all kindOk
 
@@ -61,7 +74,7 @@ theorem entry_ok (k : Kind) (hk : k ∈ kinds) (e : SetEntry) (he : e ∈ k.sets
   have := kind_ok k hk
   unfold kindOk at this
   simp only [Bool.and_eq_true] at this
-  exact List.all_eq_true.mp this.1.1.1 e he
+  exact List.all_eq_true.mp this.1.1.1.1 e he
 
 /-- members present -/
 abbrev WF (k : Kind) (o : Obj) : Prop := o.vals.length = k.fields.length
@@ -282,9 +295,9 @@ example : world.dump (world.setProp colors (world.setProp colors world.defaults 
 /-! ### set_get -/
 
 -- handlers covered by `set_get_partial` in the tables as generated at the time of writing, per kind
--- (axis, line, text, graph, world): 9 of 10, 9 of 9, 6 of 9, 6 of 10, 7 of 7
+-- (axis, line, text, graph, world): 9 of 10, 9 of 9, 6 of 9, 7 of 10 (+ clip by `set_get_clip`), 7 of 7
 /-- **set then get** for the handlers that store one member shown as it is (numbers, characters, strings,
-    colours, line attributes, axis and line positions; 37 of the 45 handlers): when the setter accepts the
+    colours, line attributes, axis and line positions; 38 of the 46 handlers): when the setter accepts the
     text `v`, the listed property of that handler reads back as a value that `v` DENOTES for the property's
     type (`Record.denote`: the number of a numeral prefix after blanks, the first visible character, the
     string itself with "" = NULL, the colour of a colour text, a count within the attribute's limits) — or
@@ -323,6 +336,76 @@ example : (axis.setProp colors axis.defaults [115, 117, 98] (.text (some [48, 12
     axis.getProp (axis.setProp colors axis.defaults [115, 117, 98] (.text (some [48, 120, 49, 102])) 1).obj [115, 117, 98]
       = some ([115, 117, 98, 116, 105, 99, 107], .int 31) := by decide
 
+/-- **print and parse of the clip text are inverse** on the generated table: for every kind with a text-alias
+    table and every mask `v` the table covers, the printed text is the axis letters of `v` and the setter's
+    letter loop reads it back as `v` -/
+theorem clip_print_parse (k : Kind) (hk : k ∈ kinds) (nm : Str) (names : List Str)
+    (hc : k.clipAlias = some (nm, names)) (v : Nat) (hv : v < names.length) :
+    names.getD v [] = clipText v ∧ clipLetters (names.getD v []) 0 = v ∧ clipMask (clipText v) = v := by
+  have hk' := kind_ok k hk
+  unfold kindOk at hk'
+  simp only [Bool.and_eq_true] at hk'
+  have hco := hk'.2
+  unfold clipOk at hco
+  simp only [hc, Bool.and_eq_true, beq_iff_eq, List.all_eq_true, List.mem_range] at hco
+  obtain ⟨⟨hn, hp⟩, _⟩ := hco
+  have hl : names.length = 8 := by rw [hn]; simp
+  have h1 : names.getD v [] = clipText v := by
+    rw [hn]; rw [hl] at hv
+    simp [List.getD_eq_getElem?_getD, hv]
+  have h2 := hp v hv
+  refine ⟨h1, h2, ?_⟩
+  rw [← clipLetters_eq, ← h1]; exact h2
+
+/-- **set then get, graph clip**: when the setter accepts the text `v`, the `clip` row reads back as the value
+    `v` denotes in S — for a numeral its number, otherwise the set of axis letters it names — SHOWN as axis
+    letters (`Record.clipText`, from the letters themselves) whenever the mask holds axes only; or `v` is
+    blank and the default is stored.  This is the theorem a permuted print table breaks. -/
+theorem set_get_clip (k : Kind) (hk : k ∈ kinds) (e : SetEntry) (he : e ∈ k.sets) (f : Nat) (ha : e.act = .clip f)
+    (tab : List NamedColor) (o : Obj) (hw : WF k o) (v : Str) (tok : Nat)
+    (hok : (e.act.run k tab o (.text (some v)) tok).ret.isOk = true) :
+    ∃ row g, affected k e.act = [row] ∧ k.gets[row]? = some g ∧
+      ((∃ x, x ∈ denote tab .clipAxes (o.get f) v ∧
+          k.getAt (e.act.run k tab o (.text (some v)) tok).obj row = some (g.name, x)) ∨
+       (blank (some v) = true ∧ (e.act.run k tab o (.text (some v)) tok).obj.get f = k.dflt f)) := by
+  obtain ⟨row, hrow⟩ := one_property k hk e he
+  have hk' := kind_ok k hk
+  unfold kindOk at hk'
+  simp only [Bool.and_eq_true] at hk'
+  have hco := hk'.2
+  have heo := entry_ok k hk e he
+  unfold entryOk at heo
+  simp only [Bool.and_eq_true, List.all_eq_true, decide_eq_true_eq] at heo
+  have hf : f < o.vals.length := by rw [hw]; apply heo.2; rw [ha]; simp [Act.touched]
+  have hcr : k.clipRow row f = true := by
+    unfold clipOk at hco
+    cases hc : k.clipAlias with
+    | none =>
+      simp only [hc, List.all_eq_true] at hco
+      have := hco e he; rw [ha] at this; cases this
+    | some t =>
+      obtain ⟨nm, names⟩ := t
+      simp only [hc, Bool.and_eq_true, List.all_eq_true] at hco
+      have := hco.2 e he
+      rw [ha] at this
+      simp only [List.all_eq_true] at this
+      rw [← ha] at this
+      exact this row (by rw [hrow]; simp)
+  rw [ha] at hok ⊢
+  rcases Act.set_get_clip k tab f o v tok hf hok with ⟨n, hx, hg⟩ | ⟨hb, hg⟩
+  · obtain ⟨g, hgr, hget⟩ := Kind.getAt_clip k _ row f n hcr hg
+    rw [ha] at hrow
+    exact ⟨row, g, hrow, hgr, Or.inl ⟨showClip n, hx, hget⟩⟩
+  · cases hgr : k.gets[row]? with
+    | none => unfold Kind.clipRow at hcr; simp [hgr] at hcr
+    | some g => rw [ha] at hrow; exact ⟨row, g, hrow, hgr, Or.inr ⟨hb, hg⟩⟩
+
+-- "zx" for the graph clip reads back as the letters "xz", the number 6 as "yz"
+example : graph.getProp (graph.setProp colors graph.defaults [99, 108, 105, 112] (.text (some [122, 120])) 1).obj [99, 108, 105, 112]
+      = some ([99, 108, 105, 112], .str (some [120, 122])) ∧
+    graph.getProp (graph.setProp colors graph.defaults [99, 108, 105, 112] (.text (some [54])) 1).obj [99, 108, 105, 112]
+      = some ([99, 108, 105, 112], .str (some [121, 122])) := by decide
+
 /-- S-level type of the property a handler sets, with the table context (point coordinates, clip names) -/
 def ptyOf (k : Kind) (a : Act) (row : Nat) : PTy :=
   match a with
@@ -330,7 +413,6 @@ def ptyOf (k : Kind) (a : Act) (row : Nat) : PTy :=
     match k.gets[row]? with
     | some g => if g.ty = -2 then (if f = g.field then .pointX else .pointY) else .scalar ty
     | none => .scalar ty
-  | .clip _ => .clipAxes (match k.clipAlias with | some (_, names) => names | none => [])
   | a => a.pty
 
 /-- the full clause, for EVERY handler (points and their coordinates, axis intervals with the `log` keyword,
@@ -360,7 +442,7 @@ theorem copy_owns (k : Kind) (hk : k ∈ kinds) (o src : Obj) (base : Nat)
   have hk' := kind_ok k hk
   unfold kindOk at hk'
   simp only [Bool.and_eq_true] at hk'
-  obtain ⟨⟨⟨_, hown⟩, _⟩, hdup⟩ := hk'
+  obtain ⟨⟨⟨⟨_, hown⟩, _⟩, hdup⟩, _⟩ := hk'
   have hc : k.copy o k.name src false base = ⟨k.copyFrom src base, .ok 0⟩ := by
     unfold Kind.copy; simp [hown]
   rw [hc]
@@ -383,7 +465,7 @@ theorem copy_self (k : Kind) (hk : k ∈ kinds) (o : Obj) (base : Nat) :
   have hk' := kind_ok k hk
   unfold kindOk at hk'
   simp only [Bool.and_eq_true] at hk'
-  obtain ⟨⟨⟨_, hown⟩, hself⟩, _⟩ := hk'
+  obtain ⟨⟨⟨⟨_, hown⟩, hself⟩, _⟩, _⟩ := hk'
   unfold Kind.copy; simp [hown, hself]
 
 -- a text with value and font: the copy owns tokens 100 and 101, the source 7 and 8
